@@ -280,6 +280,32 @@ def weight_ranges(V, **params):
     return c08.weight_ranges(V, **params)
 
 
+def rolling_dims(V):
+    """cascade_builder.rolling_buffer_shape: the rolling buffer between two cascaded operators is as wide as the wider of what the producer
+    writes and the consumer reads (a strided consumer may need fewer columns than the producer writes), at least as deep as the producer's
+    stripe rounded to the 16-channel brick, and holds a producer stripe plus a consumer stripe of rows.  The live range and the allocation
+    are sized from this shape while the tensor's strides and the producer's writes use the full width."""
+    import ethosu.vela.cascade_builder as cb
+    from ethosu.vela.shape4d import Shape4D
+
+    ph, pw, pd = V.int("producer_h", 1, 4096), V.int("producer_w", 1, 4096), V.int("producer_d", 1, 4096)
+    ch, cw = V.int("consumer_in_h", 1, 4096), V.int("consumer_in_w", 1, 4096)
+    with core.shims((cb, {"max": core.smax, "min": core.smin})):
+        r = cb.rolling_buffer_shape(Shape4D([1, ph, pw, pd]), Shape4D([1, ch, cw, pd]))
+    return [("as wide as the producer's stripe and the consumer's input", z3.And(L(r.width) >= L(pw), L(r.width) >= L(cw), z3.Or(L(r.width) == L(pw), L(r.width) == L(cw)))),
+            ("whole 16-channel bricks covering the producer's depth", z3.And(L(r.depth) >= L(pd), L(r.depth) % 16 == 0, L(r.depth) < L(pd) + 16)),
+            ("rows for a producer stripe and a consumer stripe", z3.And(L(r.height) >= L(ph) + L(ch), L(r.height) % L(ch) == 0, L(r.height) < L(ph) + 2 * L(ch))),
+            ("one batch", L(r.batch) == 1)]
+
+
+def weight_dma(V, **params):
+    """the weight DMA of a depth slice reads exactly that slice of the encoded tensor and stays inside the SRAM buffer (harness/c08.py encode:
+    real create_dma_op / create_weights on the real encoder's ranges) - a longer transfer reads past the constants tensor"""
+    from harness import c08
+
+    return c08.encode(V, **params)
+
+
 def idle_core(V, **params):
     """an operation with fewer weight/scale ranges than cores programs length 0 for the idle core instead of leaving the previous operation's
     base and length in its registers (harness/c06.py pair, weights/biases groups on the two-core accelerator)"""
@@ -296,7 +322,7 @@ def buffering(V, **params):
     return c08.buffering(V, **params)
 
 
-FUNCS = {"buffering": buffering, "weight_ranges": weight_ranges, "idle_core": idle_core, "fm_in_tensor": fm_in_tensor, "lr_rolling": lr_rolling, "nhcwb16_shapes": nhcwb16_shapes, "footprint": footprint, "mem_limits": mem_limits, "rolling": rolling, "regions": regions}
+FUNCS = {"rolling_dims": rolling_dims, "weight_dma": weight_dma, "buffering": buffering, "weight_ranges": weight_ranges, "idle_core": idle_core, "fm_in_tensor": fm_in_tensor, "lr_rolling": lr_rolling, "nhcwb16_shapes": nhcwb16_shapes, "footprint": footprint, "mem_limits": mem_limits, "rolling": rolling, "regions": regions}
 
 
 def instances(tier, seed):
@@ -331,8 +357,11 @@ def instances(tier, seed):
     for inst in c08.instances(tier, seed):
         if inst["fn"] in ("weight_ranges", "buffering"):
             out.append(dict(key=inst["key"], fn=inst["fn"], params=inst["params"]))
+        if inst["fn"] == "encode":
+            out.append(dict(key="weight_dma/" + inst["key"], fn="weight_dma", params=inst["params"], weight=inst.get("weight", 1)))
     for gname in ("weights", "biases"):
         out.append(dict(key="idle_core/%s" % gname, fn="idle_core", params=dict(accel="Ethos_U65_512", kind="conv", group=gname, light=True), weight=100))
+    out.append(dict(key="rolling_dims", fn="rolling_dims", params={}))
     for nprod, ncons in ((1, 1), (1, 2), (2, 1), (1, 0)):
         out.append(dict(key="nhcwb16_shapes/p%d_c%d" % (nprod, ncons), fn="nhcwb16_shapes", params=dict(nprod=nprod, ncons=ncons)))
     return out
